@@ -1245,3 +1245,32 @@ package ring
 //@   property C17
 //@   ensures randomInt < v
 //@   loop 0 invariant true
+
+// ---- modular exponentiation (property C11: Galois elements are powers of the generator) ----
+// pow(x, n) is x^n over the integers; the rules pow_zero / pow_even / pow_odd / pow_cong are
+// inductive facts checked by Lean 4 + Mathlib (/verif/lean/PowLemmas.lean), not by the SMT solvers.
+//@ func GenBRedConstant
+//@   property C11
+//@   trusted big-number division: assumed to return floor(2^128 / q) as two words
+//@   requires 0 < q && q < 1<<63
+//@   ensures bredpre(q, result[0], result[1])
+
+//@ func ModExp
+//@   property C11
+//@   requires 1 < p && p < 1<<62 && x < p
+//@   ensures result < p
+//@   ensures cong(result, pow(old(x), e), p) by pow_zero(x); cong_trans(result, result * pow(x, 0), pow(old(x), e), p); cong_refl(result, p)
+//@   loop 0 invariant 0 <= i && i <= e && result < p && x < p && bredpre(p, brc[0], brc[1])
+//@   loop 0 invariant cong(result * pow(x, i), pow(old(x), e), p)
+//@   loop 0 decreases i
+//@   loop 0 lemma cong_refl(pow(x, i), p); pow_even(prev(x), prev(i)); pow_odd(prev(x), prev(i)); pow_cong(x, prev(x)*prev(x), i, p)
+//@   loop 0 lemma cong_scale(pow(x, i), pow(prev(x)*prev(x), i), prev(result), p); cong_scale(pow(x, i), pow(prev(x)*prev(x), i), prev(result)*prev(x), p)
+//@   loop 0 lemma mulhyp(pow(prev(x), prev(i)), pow(prev(x)*prev(x), i), prev(result)); mulhyp(pow(prev(x), prev(i)), prev(x)*pow(prev(x)*prev(x), i), prev(result))
+//@   loop 0 lemma cong_scale(result, prev(result)*prev(x), pow(x, i), p)
+//@   loop 0 lemma cong_trans(result*pow(x, i), prev(result)*prev(x)*pow(x, i), prev(result)*prev(x)*pow(prev(x)*prev(x), i), p)
+//@   loop 0 lemma cong_trans(result*pow(x, i), prev(result)*prev(x)*pow(prev(x)*prev(x), i), pow(old(x), e), p)
+//@   loop 0 lemma cong_trans(result*pow(x, i), prev(result)*pow(prev(x)*prev(x), i), pow(old(x), e), p)
+
+//@ func Ring.NthRoot
+//@   requires 0 < len(r.SubRings)
+//@   ensures result == r.SubRings[0].NthRoot
